@@ -20,7 +20,8 @@ ALL_STATES = ["picks in descending frequency order", "same pole picked twice", "
               "click outside the axes", "pick on a column without poles", "deselect on empty selection", "modifier released before click"]
 REQUIRED_STATES = ["picks in descending frequency order", "deselect-one with >= 2 selected", "deselect-nearest with >= 2 selected", "click without modifier ignored",
                    "click outside the axes", "deselect on empty selection", "modifier released before click", "dialog opened with freqlim",
-                   "deselect-nearest beside the midpoint of two selected frequencies", "same pole picked twice"]
+                   "deselect-nearest beside the midpoint of two selected frequencies", "same pole picked twice",
+                   "hand-over of picks at two alternating model orders"]
 RULE = ("the real SelFromPlot dialog is constructed with Tk replaced by inert stand-ins and driven by real matplotlib Mouse/Key events dispatched through "
         "the canvas callback registry at pixel positions computed from data coordinates; ALL sequences up to length 3 (quick) / 4 (thorough) over "
         "{shift down, shift up, pick at each of 6 poles of a 3x4 table, deselect-one, deselect-nearest at 2 positions}; random length-6 sequences at "
@@ -418,6 +419,13 @@ def run_random(ctx, case):
         sess["s"] = s2
         s2.key(True)
         order = rng.permutation(len(fn))
+        if plot != "FDD" and len(fn) >= 3 and rng.random() < 0.4:
+            # every mode picked, at two model orders that alternate along the frequency axis (A, B, A)
+            oa, ob = [int(x) for x in rng.choice(np.arange(max(2, ncol - 6), ncol), 2, replace=False)]
+            for k in order:
+                s2.click(1, float(fn[k] + rng.uniform(-0.3, 0.3)), float((oa if int(np.argsort(np.argsort(fn))[k]) % 2 == 0 else ob) + rng.uniform(-0.3, 0.3)))
+            ctx.state("hand-over of picks at two alternating model orders")
+            order = order[:0]
         for k in order[: int(rng.integers(1, len(fn) + 1))]:
             if plot == "FDD":
                 s2.click(1, float(fn[k] + rng.uniform(-0.3, 0.3)), -10.0)
